@@ -382,7 +382,7 @@ def row_pipeline(rep):
         # the row index / row variable runs over the sorted rows in their order
         if kind == "index":
             iv = unparse(rowref)
-            q, found = cell, False
+            q, found = cell, None
             while q is not None and q is not fn:
                 gens = q.generators if isinstance(q, (ast.ListComp, ast.GeneratorExp)) else []
                 for gg in gens:
@@ -391,6 +391,9 @@ def row_pipeline(rep):
                 if isinstance(q, ast.For) and unparse(q.target) == iv:
                     found = unparse(q.iter) == f"range(len({SR}))"
                 q = getattr(q, "_parent", None)
+            if found is None:
+                raise AnalysisError("over_time: the loop binding the row index of `"
+                                    + unparse(cell) + "` was not found")
             ok2 = ok2 and found
         # the value lands in the column of the same key
         q, landed = cell, None
@@ -407,7 +410,21 @@ def row_pipeline(rep):
                     and par.func.attr == "append" and isinstance(par.func.value, ast.Subscript) \
                     and par.args and par.args[0] is q:
                 landed = unparse(par.func.value.slice)
+            elif (isinstance(par, ast.AugAssign) and isinstance(par.target, ast.Name)) or (
+                    isinstance(par, ast.Assign) and isinstance(par.targets[0], ast.Name)):
+                # collected in a local list first: where does that list land?
+                acc = par.target.id if isinstance(par, ast.AugAssign) else par.targets[0].id
+                dests = [a for a in ast.walk(fn) if isinstance(a, ast.Assign)
+                         and isinstance(a.targets[0], ast.Subscript)
+                         and any(isinstance(x, ast.Name) and x.id == acc
+                                 for x in ast.walk(a.value))]
+                if len(dests) == 1:
+                    landed = unparse(dests[0].targets[0].slice)
+                break
             q = par
+        if landed is None:
+            raise AnalysisError("over_time: where the cell `" + unparse(cell)
+                                + "` lands in the output table was not understood")
         ok2 = ok2 and landed == kv
     rep.check(ok2, "rows-move-together", f"{base}::output-loop",
               "every output column must receive rows[i][key] for the same key, in row order",
@@ -473,6 +490,34 @@ def estimator_table(rep):
         raise AnalysisError(f"est_functions: only {n} entries")
 
 
+def _local_value(st, name, fn):
+    """What `name` holds at statement `st`: the value of the closest preceding unconditional
+    assignment in the enclosing blocks (ast node), ('loop', For) when it is the target of an
+    enclosing loop, None when a conditional or repeated binding intervenes."""
+    cur = st
+    while cur is not None and cur is not fn:
+        par = getattr(cur, "_parent", None)
+        if par is None:
+            return None
+        for field in ("body", "orelse", "finalbody"):
+            blk = getattr(par, field, None)
+            if isinstance(blk, list) and any(x is cur for x in blk):
+                k = [i for i, x in enumerate(blk) if x is cur][0]
+                for prev in reversed(blk[:k]):
+                    if isinstance(prev, ast.Assign) and len(prev.targets) == 1 \
+                            and isinstance(prev.targets[0], ast.Name) \
+                            and prev.targets[0].id == name:
+                        return prev.value
+                    if any(isinstance(n, ast.Name) and n.id == name
+                           and isinstance(n.ctx, (ast.Store, ast.Del)) for n in ast.walk(prev)):
+                        return None
+        if isinstance(par, ast.For) and any(
+                isinstance(n, ast.Name) and n.id == name for n in ast.walk(par.target)):
+            return ("loop", par)
+        cur = par
+    return None
+
+
 def estimate_columns(rep):
     S = rep.sources
     fn = S.function(TIME, "process_single_timestep")
@@ -495,31 +540,47 @@ def estimate_columns(rep):
                 and len(val.args) == 1 and unparse(val.args[0]) == f"data[{ptxt[0]}]"
             why = f"`{norm_src(st)[:70]}`: the estimated column is not the column named in the key"
             if ok:
-                fname = unparse(val.func)
-                est = ptxt[2]
-                # func must be bound to `est` : func = est_functions[est]  or loop over items()
-                bound = fname == f"est_functions[{est}]"
-                # D[est] inside  for est in D  (a dict of custom estimators)
-                if isinstance(val.func, ast.Subscript) and unparse(val.func.slice) == est:
-                    D = unparse(val.func.value)
-                    q = st
-                    while q is not None and q is not fn:
-                        if isinstance(q, ast.For) and unparse(q.target) == est \
-                                and unparse(q.iter) in (D, D + ".keys()"):
-                            bound = True
-                        q = getattr(q, "_parent", None)
-                for n2 in ast.walk(fn):
-                    if isinstance(n2, ast.Assign) and unparse(n2.targets[0]) == fname \
-                            and unparse(n2.value) == f"est_functions[{est}]":
-                        bound = True
-                    if isinstance(n2, ast.For) and unparse(n2.target) == f"({est}, {fname})" \
-                            and unparse(n2.iter).endswith(".items()"):
-                        bound = True
-                    if isinstance(n2, ast.For) and unparse(n2.target) == f"{est}, {fname}":
-                        bound = True
+                est_c = {ptxt[2]}
+                if isinstance(parts[2], ast.Name):
+                    ev_ = _local_value(st, parts[2].id, fn)
+                    if isinstance(ev_, ast.AST):
+                        est_c.add(unparse(ev_))
+                fexpr = val.func
+                loop = None
+                if isinstance(fexpr, ast.Name):
+                    fv = _local_value(st, fexpr.id, fn)
+                    if isinstance(fv, tuple):
+                        loop, fexpr = fv[1], None
+                    elif isinstance(fv, ast.AST):
+                        fexpr = fv
+                    else:
+                        fexpr = None
+                bound = None
+                if loop is not None:
+                    # for <name>, <function> in <dict>.items()
+                    t = loop.target
+                    if isinstance(t, ast.Tuple) and len(t.elts) == 2 \
+                            and unparse(t.elts[1]) == unparse(val.func):
+                        bound = unparse(t.elts[0]) in est_c
+                elif isinstance(fexpr, ast.Subscript):
+                    D, X = unparse(fexpr.value), unparse(fexpr.slice)
+                    if D == "est_functions":
+                        bound = X in est_c
+                    else:
+                        # D[est] inside  for est in D  (a dict of custom estimators)
+                        q = st
+                        while q is not None and q is not fn:
+                            if isinstance(q, ast.For) and unparse(q.iter) in (D, D + ".keys()") \
+                                    and unparse(q.target) == X:
+                                bound = X in est_c
+                            q = getattr(q, "_parent", None)
+                if bound is None:
+                    raise AnalysisError(
+                        f"process_single_timestep: `{norm_src(st)[:70]}`: which function is "
+                        "applied could not be established")
                 ok = bound
                 why = (f"`{norm_src(st)[:70]}`: the function applied is not the one bound to "
-                       f"the estimate name `{est}`")
+                       f"the estimate name `{ptxt[2]}`")
             # guarded by "not already present"
             par = getattr(st, "_parent", None)
             guarded = isinstance(par, ast.If) and "not in" in unparse(par.test) \
@@ -563,9 +624,17 @@ def skip_present(rep):
             return el.keys[0].id
         raise AnalysisError("over_time: appended request not understood: " + unparse(el))
 
-    sites_v = [(n, appended(n, "cleaned_vars")) for n in ast.walk(fn)]
+    def cleaned_list(param):
+        """the list that replaces the request parameter: `param = <list name>`"""
+        names = [n.value.id for n in ast.walk(fn) if isinstance(n, ast.Assign)
+                 and len(n.targets) == 1 and unparse(n.targets[0]) == param
+                 and isinstance(n.value, ast.Name)]
+        return names[-1] if names else "cleaned_" + param
+
+    lv, le = cleaned_list("vars"), cleaned_list("estimates")
+    sites_v = [(n, appended(n, lv)) for n in ast.walk(fn)]
     sites_v = [(n, e) for n, e in sites_v if e is not None]
-    sites_e = [(n, appended(n, "cleaned_estimates")) for n in ast.walk(fn)]
+    sites_e = [(n, appended(n, le)) for n in ast.walk(fn)]
     sites_e = [(n, e) for n, e in sites_e if e is not None]
     if len(sites_v) < 2 or len(sites_e) < 4:
         raise AnalysisError("over_time: the request-cleaning appends were not found")
